@@ -107,7 +107,7 @@ def _obligation_labels(unit, A):
                 obs.append((f'{it.name}.decreases', props))
             # implicit: callee preconditions, overflow, panics in the body
             obs.append((f'{it.name}.safety', sorted(set(props) | {'C20'})))
-            if it.proof_start or it.proof_tail or any(lp.proof_end or lp.proof_start or lp.proof_before for lp in it.loops.values()):
+            if it.proof_start or it.proof_tail or it.hints or any(lp.proof_end or lp.proof_start or lp.proof_before for lp in it.loops.values()):
                 obs.append((f'{it.name}.hints', props))
         elif it.kind == 'raw':
             text = it.text
